@@ -279,9 +279,9 @@ theorem go_le : ∀ e, Tot1 e := by
   -- array
   · intro i items ih exp G Γ s
     rw [go]
-    obtain ⟨ts, Γ1, s1, h1, l1⟩ := ih.2.2.2.1 s.mark.fresh.1 G Γ s.mark.fresh.2
+    obtain ⟨ts, Γ1, s1, h1, l1⟩ := ih.2.2.2.1 s.fresh.1 G Γ s.fresh.2
     simp only [h1]
-    exact finish_tot ((le_mark _).trans ((le_fresh _).trans l1)) _ _ _ _ _
+    exact finish_tot ((le_fresh _).trans l1) _ _ _ _ _
   -- constr
   · intro i info args ih exp G Γ s
     cases info with
@@ -312,9 +312,13 @@ theorem go_le : ∀ e, Tot1 e := by
       obtain ⟨cty, nf⟩ := pr
       rw [go]
       dsimp only
-      obtain ⟨ts, Γ1, s1, h1, l1⟩ := ih.2.2.2.2.2.2 idxs (ctorParams (s.mark.inst cty).1) G Γ (s.mark.inst cty).2
+      obtain ⟨ts, Γ1, s1, h1, l1⟩ := ih.2.2.2.2.2.2 idxs (ctorParams (s.inst cty).1) G Γ (s.inst cty).2
       simp only [h1]
-      exact finish_tot ((le_mark _).trans ((le_inst _ _).trans (l1.trans (le_push _ _)))) _ _ _ _ _
+      have lm : Le s1 (if zipOk nf idxs ts = true then s1 else s1.mark) := by
+        split
+        · exact Le.refl _
+        · exact le_mark _
+      exact finish_tot ((le_inst _ _).trans (l1.trans (lm.trans (le_push _ _)))) _ _ _ _ _
   -- arm
   · intro p body ih; exact ih
   -- []
